@@ -1,18 +1,20 @@
 """Drivers of table-sim: C07 (name resolution), C08 (row selection), C14 (derivations)."""
 from ..common import rng_for, digest, tuplify
-from .gen import TGen, gen_table, ALPHABETS, MIXED_ALPHABETS
+from .gen import TGen, gen_table, ALPHABETS, MIXED_ALPHABETS, SEPCHAR_ALPHABETS
 from .engine import step
 from .world import TWorld, TViolation
 
 W_C07 = {"warm": 10, "get": 40, "labels": 6, "setcell": 22, "setslice": 8, "setcol": 10, "delcol": 3, "reindex": 3, "d_rows": 2, "d_copy": 1, "sel": 4}
-W_C08 = {"sel": 50, "compose": 14, "setcell": 6, "setslice": 2, "setcol": 5, "d_rows": 6, "warm": 3, "get": 3, "reindex": 1}
-W_C14 = {"d_rows": 14, "d_cols": 12, "d_add": 7, "d_mul": 5, "d_concat": 5, "d_copy": 6, "d_t": 4, "expr": 12,
+W_C08 = {"polluter": 4, "sel": 50, "compose": 14, "setcell": 6, "setslice": 2, "setcol": 5, "d_rows": 6, "warm": 3, "get": 3, "reindex": 1}
+W_C14 = {"d_select": 8, "d_rows": 14, "d_cols": 12, "d_add": 7, "d_mul": 5, "d_concat": 5, "d_copy": 6, "d_t": 4, "expr": 12,
          "setcol": 10, "setcell": 8, "setslice": 3, "delcol": 4, "sel": 3, "reindex": 1, "get": 2, "ctor": 6}
 
 
 def _case(ctx, run, prop, weights, faults_p, sizes):
     rc = rng_for(ctx.seed, prop, run, "cfg")
-    cfg = {"alphabet": rc.choice(ALPHABETS) if rc.random() < 0.75 else rc.choice(MIXED_ALPHABETS), "sizes": sizes(rc),
+    ra = rc.random()
+    cfg = {"alphabet": rc.choice(ALPHABETS) if ra < 0.65 else (rc.choice(MIXED_ALPHABETS) if ra < 0.85 else rc.choice(SEPCHAR_ALPHABETS)),
+           "sizes": sizes(rc),
            "faults": rc.random() < faults_p, "fixed_width": (prop == "C07" and rc.random() < 0.15),
            "n_ops": rc.randint(5, 40) if ctx.tier == "quick" else rc.randint(5, 100)}
     w = dict(weights)
@@ -101,4 +103,4 @@ class C14:
 
     @staticmethod
     def execute(ctx, case):
-        return _execute(ctx, case, "C14", ("d_rows", "d_cols", "d_add", "d_mul", "d_concat", "d_copy", "d_t"))
+        return _execute(ctx, case, "C14", ("d_rows", "d_cols", "d_add", "d_mul", "d_concat", "d_copy", "d_t", "d_select"))
